@@ -19,7 +19,8 @@ Cd == INSTANCE Codec WITH cur <- 0
 Rec == ndJsonDeserialize(IOEnv.TRACE)
 Types == Rec[1].types
 
-VARIABLES cur, seen   \* record index; <<type, digest>> of wide outputs seen so far
+VARIABLES cur, seen,  \* record index; <<type, digest>> of wide outputs seen so far
+          blocks      \* <<key, counter, 16-byte block (hex)>> of the byte-valued outputs seen so far
 
 OutType(tr) == IF tr.k = "perm" THEN [k |-> "a", st |-> "u64", sh |-> <<tr.n>>] ELSE tr
 
@@ -39,24 +40,32 @@ OutFacets(rr) == LET ty == OutType(Types[rr.ty]) IN
      <<"in_domain", Cd!Accepts(rr.lay, ty) /\ Cd!FlushOK(ty, rr.lastb)>>,
      <<"permutation", (Types[rr.ty].k = "perm" /\ rr.perm # <<>>) => IsPermutation(rr.perm, Types[rr.ty].n)>>,
      \* different (key, counter) pairs give different outputs (for outputs of at least 64 bits)
-     <<"distinct_outputs", Wide(rr) => <<rr.ty, rr.dg>> \notin seen>> >>
+     <<"distinct_outputs", Wide(rr) => <<rr.ty, rr.dg>> \notin seen>>,
+     \* different (key, counter) give unrelated values: no 16-byte block of this output occurs in an output seen
+     \* before under another (key, counter) -- outputs of different types under the same (key, counter) are prefixes
+     \* of one stream by design -- nor twice in this one (honest 128-bit blocks collide with probability < 2^-100)
+     <<"unrelated_blocks", /\ \A ii \in 1..Len(rr.blk) : \A bb \in blocks :
+                                (bb[3] = rr.blk[ii]) => (bb[1] = rr.key /\ bb[2] = rr.ctr)
+                           /\ \A ii, jj \in 1..Len(rr.blk) : ii # jj => rr.blk[ii] # rr.blk[jj]>> >>
 HistFacets(rr) ==
   << <<"evaluated", \A ii \in 1..Len(rr.dg) : rr.dg[ii] \notin {"err", "panic"}>>,
      <<"single_table", RunHist(tab, rr, 1).ok>> >>
 Failing(fs) == { fs[ii][1] : ii \in { jj \in 1..Len(fs) : ~fs[jj][2] } }
 
-TraceInit == cur = 2 /\ seen = {} /\ tab = <<>> /\ hist = <<>> /\ mode = "trace" /\ cache = <<>>
+TraceInit == cur = 2 /\ seen = {} /\ blocks = {} /\ tab = <<>> /\ hist = <<>> /\ mode = "trace" /\ cache = <<>>
 Step(rr) ==
   IF rr.kind = "out"
   THEN /\ tab' = Extend(tab, rr.key, rr.ctr, rr.ty, rr.dg)
        /\ seen' = IF Wide(rr) THEN seen \cup {<<rr.ty, rr.dg>>} ELSE seen
+       /\ blocks' = blocks \cup {<<rr.key, rr.ctr, rr.blk[ii]>> : ii \in 1..Len(rr.blk)}
   ELSE /\ tab' = (LET rh == RunHist(tab, rr, 1) IN IF rh.ok THEN rh.tb ELSE tab)
        /\ seen' = seen
+       /\ blocks' = blocks
 TraceNext == /\ cur <= Len(Rec)
              /\ Step(Rec[cur])
              /\ cur' = cur + 1
              /\ UNCHANGED <<hist, mode, cache>>
-TraceSpec == TraceInit /\ [][TraceNext]_<<cur, seen, tab, hist, mode, cache>>
+TraceSpec == TraceInit /\ [][TraceNext]_<<cur, seen, blocks, tab, hist, mode, cache>>
 \* every record is judged in the state that holds the table built from the records before it
 TraceOK == cur <= Len(Rec) =>
   LET rr == Rec[cur]
